@@ -16,7 +16,9 @@
   * `Dg.flags_fold` : the flag fields after a run of flag bytes
   * `Dg.widOf`, `Dg.precOf`, `Dg.verbOf`, `Dg.grammar_fields` : all eight result fields, explicitly
   * `Dg.numeral_value` : numerals of up to six digits are read as decimal numbers
-  * `Dg.accW_fold_eq`, `Dg.accP_fold_eq` : below the saturation bound the folds are decimal numbers
+  * `Dg.acc_fold_gen`, `Dg.accW_fold_eq`, `Dg.accP_fold_eq` : below the saturation bound the folds are
+    decimal numbers
+  (`D128/Proofs/DigitsParseBound.lean`: EVERY parsed spec has precision −1 or in `[0, 10^6)`)
 -/
 import D128.Proofs.Digits
 
@@ -49,12 +51,12 @@ def pfVerb (a : Gen.formatArgs) : List UInt8 → Gen.formatArgs
   | [v] => { a with verb := v }
   | _ => a
 
-/-- further precision digits (saturating: beyond 10^5 the precision becomes "absent") -/
+/-- further precision digits (saturating: beyond 10^5 the precision becomes "absent" and stays so) -/
 def pfPrecDigits (a : Gen.formatArgs) : List UInt8 → Gen.formatArgs
   | [] => a
   | c :: t =>
     if (decide (c < 48) || decide (c > 57)) = true then pfVerb a (c :: t)
-    else if decide (a.prec < 100000) = true then
+    else if (decide (a.prec ≥ 0) && decide (a.prec < 100000)) = true then
       pfPrecDigits { a with prec := a.prec * 10 + (Go.conv (c - 48) : Int64) } t
     else pfPrecDigits { a with prec := (-1 : Int64) } t
 
@@ -464,12 +466,12 @@ theorem parseFormat_triple (s : Go.Bytes) (a : Gen.formatArgs) :
     exact pinv_step _ ‹_ ∧ PInv pfPrecDigits _ _› ‹decide (_ < _) = true›
       ‹(_ : UInt8) = Option.getD _ 0›
       (fun t => by rw [pfPrecDigits]; simp only [‹¬ (decide (_ < (48 : UInt8)) || _) = true›,
-        ‹decide (_ < (100000 : Int64)) = true›, if_true, if_false, Bool.false_eq_true])
+        ‹(decide (_ ≥ (0 : Int64)) && _) = true›, if_true, if_false, Bool.false_eq_true])
   case vc25 =>
     exact pinv_step _ ‹_ ∧ PInv pfPrecDigits _ _› ‹decide (_ < _) = true›
       ‹(_ : UInt8) = Option.getD _ 0›
       (fun t => by rw [pfPrecDigits]; simp only [‹¬ (decide (_ < (48 : UInt8)) || _) = true›,
-        ‹¬ decide (_ < (100000 : Int64)) = true›, if_true, if_false, Bool.false_eq_true])
+        ‹¬ (decide (_ ≥ (0 : Int64)) && _) = true›, if_true, if_false, Bool.false_eq_true])
   case vc26 => exact pinv_end ‹_ ∧ PInv pfPrecDigits _ _› ‹¬ decide (_ < _) = true› (fun _ => rfl)
   case vc27 =>
     obtain ⟨h0', hl', hsp⟩ := prec_dot ‹PExit pfPrec _ _› ‹¬ decide (_ ≥ _) = true›
@@ -519,12 +521,12 @@ theorem parseFormat_triple (s : Go.Bytes) (a : Gen.formatArgs) :
     exact pinv_step _ ‹_ ∧ PInv pfPrecDigits _ _› ‹decide (_ < _) = true›
       ‹(_ : UInt8) = Option.getD _ 0›
       (fun t => by rw [pfPrecDigits]; simp only [‹¬ (decide (_ < (48 : UInt8)) || _) = true›,
-        ‹decide (_ < (100000 : Int64)) = true›, if_true, if_false, Bool.false_eq_true])
+        ‹(decide (_ ≥ (0 : Int64)) && _) = true›, if_true, if_false, Bool.false_eq_true])
   case vc42 =>
     exact pinv_step _ ‹_ ∧ PInv pfPrecDigits _ _› ‹decide (_ < _) = true›
       ‹(_ : UInt8) = Option.getD _ 0›
       (fun t => by rw [pfPrecDigits]; simp only [‹¬ (decide (_ < (48 : UInt8)) || _) = true›,
-        ‹¬ decide (_ < (100000 : Int64)) = true›, if_true, if_false, Bool.false_eq_true])
+        ‹¬ (decide (_ ≥ (0 : Int64)) && _) = true›, if_true, if_false, Bool.false_eq_true])
   case vc43 => exact pinv_end ‹_ ∧ PInv pfPrecDigits _ _› ‹¬ decide (_ < _) = true› (fun _ => rfl)
   case vc44 =>
     have hP := pexit_width_to_prec ‹PExit pfWidth _ _› ‹¬ decide (_ ≥ _) = true›
@@ -582,9 +584,9 @@ def isDig8 (c : UInt8) : Bool := !(decide (c < 48) || decide (c > 57))
 def accW (w : Int64) (c : UInt8) : Int64 :=
   if decide (w < 100000) = true then w * 10 + (Go.conv (c - 48) : Int64) else 0
 
-/-- one more precision digit (saturating to −1 = "absent" from 10^5 on) -/
+/-- one more precision digit (saturating to −1 = "absent" from 10^5 on, and staying there) -/
 def accP (p : Int64) (c : UInt8) : Int64 :=
-  if decide (p < 100000) = true then p * 10 + (Go.conv (c - 48) : Int64) else -1
+  if (decide (p ≥ 0) && decide (p < 100000)) = true then p * 10 + (Go.conv (c - 48) : Int64) else -1
 
 /-- width field after an optional width numeral -/
 def setW (a : Gen.formatArgs) : List UInt8 → Gen.formatArgs
@@ -695,7 +697,7 @@ theorem pfPrecDigits_append (ds R : List UInt8) (a : Gen.formatArgs)
     simp only [List.cons_append, List.foldl_cons]
     rw [pfPrecDigits]
     simp only [hc, Bool.false_eq_true, if_false]
-    by_cases hw : decide (a.prec < 100000) = true
+    by_cases hw : (decide (a.prec ≥ 0) && decide (a.prec < 100000)) = true
     · rw [if_pos hw, ih']
       simp only [accP, hw, if_true]
     · rw [if_neg hw, ih']
@@ -913,11 +915,13 @@ theorem acc_step (sat w : Int64) (c : UInt8) (n : Nat) (hw : w.toInt = n) (hn : 
   push_cast; rfl
 
 /-- while all proper prefixes stay below 10^5, the fold is the decimal value `n‖ds` -/
-theorem acc_fold_eq (sat : Int64) (ds : List UInt8) (w : Int64) (n : Nat) (hw : w.toInt = n)
+theorem acc_fold_gen (g : Int64 → UInt8 → Int64)
+    (hg : ∀ (w : Int64) (c : UInt8) (n : Nat), w.toInt = n → n < 100000 →
+      g w c = w * 10 + (Go.conv (c - 48) : Int64))
+    (ds : List UInt8) (w : Int64) (n : Nat) (hw : w.toInt = n)
     (hds : ∀ c ∈ ds, isDig8 c = true)
     (hb : ds = [] ∨ (n * 10 ^ ds.length + ofMsd (ds.map dv)) / 10 < 100000) :
-    (ds.foldl (fun w c => if decide (w < 100000) = true then w * 10 + (Go.conv (c - 48) : Int64)
-        else sat) w).toInt = ((n * 10 ^ ds.length + ofMsd (ds.map dv) : Nat) : Int) := by
+    (ds.foldl g w).toInt = ((n * 10 ^ ds.length + ofMsd (ds.map dv) : Nat) : Int) := by
   induction ds generalizing w n with
   | nil => simp [hw]
   | cons c t ih =>
@@ -932,7 +936,10 @@ theorem acc_fold_eq (sat : Int64) (ds : List UInt8) (w : Int64) (n : Nat) (hw : 
       have : n * (10 ^ t.length * 10) ≥ n * 10 := by nlinarith
       omega
     rw [List.foldl_cons]
-    have hstep := acc_step sat w c n hw hn hc
+    have hstep := acc_step 0 w c n hw hn hc
+    have e5 : (100000 : Int64).toInt = 100000 := by decide
+    have hlt : w < 100000 := by rw [Int64.lt_iff_toInt_lt, hw, e5]; omega
+    rw [if_pos (decide_eq_true hlt), ← hg w c n hw hn] at hstep
     have key : n * 10 ^ (c :: t).length + ofMsd ((c :: t).map dv) =
         (n * 10 + dv c) * 10 ^ t.length + ofMsd (t.map dv) := by
       rw [List.map_cons, ofMsd_cons, List.length_cons, List.length_map, Nat.pow_succ]; ring
@@ -947,14 +954,28 @@ theorem acc_fold_eq (sat : Int64) (ds : List UInt8) (w : Int64) (n : Nat) (hw : 
 theorem accW_fold_eq (ds : List UInt8) (w : Int64) (n : Nat) (hw : w.toInt = n)
     (hds : ∀ c ∈ ds, isDig8 c = true)
     (hb : ds = [] ∨ (n * 10 ^ ds.length + ofMsd (ds.map dv)) / 10 < 100000) :
-    (ds.foldl accW w).toInt = ((n * 10 ^ ds.length + ofMsd (ds.map dv) : Nat) : Int) :=
-  acc_fold_eq 0 ds w n hw hds hb
+    (ds.foldl accW w).toInt = ((n * 10 ^ ds.length + ofMsd (ds.map dv) : Nat) : Int) := by
+  apply acc_fold_gen accW _ ds w n hw hds hb
+  intro w c n hw hn
+  have e5 : (100000 : Int64).toInt = 100000 := by decide
+  have hlt : w < 100000 := by rw [Int64.lt_iff_toInt_lt, hw, e5]; omega
+  unfold accW
+  rw [if_pos (decide_eq_true hlt)]
 
 theorem accP_fold_eq (ds : List UInt8) (w : Int64) (n : Nat) (hw : w.toInt = n)
     (hds : ∀ c ∈ ds, isDig8 c = true)
     (hb : ds = [] ∨ (n * 10 ^ ds.length + ofMsd (ds.map dv)) / 10 < 100000) :
-    (ds.foldl accP w).toInt = ((n * 10 ^ ds.length + ofMsd (ds.map dv) : Nat) : Int) :=
-  acc_fold_eq (-1) ds w n hw hds hb
+    (ds.foldl accP w).toInt = ((n * 10 ^ ds.length + ofMsd (ds.map dv) : Nat) : Int) := by
+  apply acc_fold_gen accP _ ds w n hw hds hb
+  intro w c n hw hn
+  have e5 : (100000 : Int64).toInt = 100000 := by decide
+  have e0 : (0 : Int64).toInt = 0 := by decide
+  have hlt : w < 100000 := by rw [Int64.lt_iff_toInt_lt, hw, e5]; omega
+  have hge : w ≥ 0 := by
+    show (0 : Int64) ≤ w
+    rw [Int64.le_iff_toInt_le, hw, e0]; omega
+  unfold accP
+  rw [if_pos (by simp [hlt, hge])]
 
 /-- a numeral `c ds` of at most six digits whose first five digits are below 10^5 is read as its
 decimal value -/
